@@ -291,6 +291,16 @@ func (m *Machine) syncBlocking(s *State, f *Frame, name string, args []Value) (b
 		ls := s.locks[k]
 		ls.writer = 0
 		s.locks[k] = ls
+		if m.preemptLock && len(s.gs) > 1 && !s.gs[s.cur].daemon && m.preemptHere(f) && s.preemptions < m.preemptBound {
+			// preemption point right after releasing a lock (context-bounded)
+			s.atPreempt = true
+			succ := m.schedule(s, true)
+			s.atPreempt = false
+			if succ == nil && s.status == "" {
+				return true, []*State{s}
+			}
+			return true, succ
+		}
 		return true, nil
 	case "(*sync.RWMutex).RLock":
 		k := lockKey(args[0].(Ptr))
